@@ -117,7 +117,10 @@ def dispatchRanges : List String → Option (Obs × Option Obs)
       | .ok fs => ("err", "ok") :: isfr :: frameSetObs fs qi qv
     let sp : Option Obs :=
       match parseAst ast with
-      | none => none
+      | none =>
+        -- a text without a known AST (mutated, exhaustive): accepted iff it is in the grammar,
+        -- which is what the recogniser decides (C01_accept_iff)
+        some [("err", match FrameSet.parse txt with | .ok _ => "ok" | .error e => e.toString)]
       | some cs =>
         if cs.all Spec.Comp.ok then
           some ([("err", "ok"), ("own", "1")] ++ obsList (Spec.denote cs) qi qv)
